@@ -56,8 +56,12 @@ def run(ctx):
     export = os.path.join(core.VERIF, "harness", "eventnotifier", "verif_export.go")
     base = os.path.join(ctx.work, "base_eventrecorder.go")
     open(base, "w").write(open(os.path.join(core.VERIF, "harness", "base", "base.go")).read().replace("package verifbase", "package eventrecorder", 1))
+    base_h = os.path.join(ctx.work, "base_httpd.go")
+    open(base_h, "w").write(open(os.path.join(core.VERIF, "harness", "base", "base.go")).read().replace("package verifbase", "package httpd", 1))
     from concurrent.futures import ThreadPoolExecutor
-    with ThreadPoolExecutor(max_workers=3) as ex:
+    with ThreadPoolExecutor(max_workers=4) as ex:
+        # readers of the history: the handlers of eventmon/httpd in front of a real recorder
+        f4 = ex.submit(ctx.go_harness, "eventmon/httpd", "TestVerif_C20H", [base_h, "httpd/c20h.go"])
         # subscribers on the production connection path only (no file added to the notifier package)
         f3 = ex.submit(ctx.go_harness, "cmd/keymasterd", "TestVerif_C20S",
                        ["kmd/common.go", "kmd/creds.go", "kmd/c20s.go", "kmd/c20k.go", os.path.join(ctx.work, "gen", "mux_gen.go")])
@@ -68,6 +72,7 @@ def run(ctx):
         ok, result, log = f1.result()
         rec_ok, rec_result, rec_log = f2.result()
         s_ok, s_result, s_log = f3.result()
+        h_ok, h_result, h_log = f4.result()
     if compile_gen(ctx, names=("Tables.v",)):
         ctx.gen_obligations("Obl_C20.v", ["c20_sites_cover", "c20_sends_nonblocking", "c20_sites_publish", "c20_sites_reported"])
     jobs = []
@@ -88,6 +93,9 @@ def run(ctx):
     if rec_result is not None:
         jobs.append(("CasesC20L.v", "c20l_mismatches", "CasesC20L.idx",
                      "recorder event loop: every history answer and every saved file = model (%s scenarios)", "c20l_ncases"))
+    if h_result is not None and os.path.exists(os.path.join(ctx.work, "CasesC20H.v")):
+        jobs.append(("CasesC20H.v", "c20h_mismatches", "CasesC20H.idx",
+                     "readers of the history (every route of eventmon/httpd x the parameters it reads x candidate values, harvested from the package source) between the last event and the save, then a restart: every read-out after a reader ran, the saved file and the restarted recorder = the model's loop with readers that only look (%s reader requests)", "c20h_ncases"))
     if rec_result is not None and os.path.exists(os.path.join(ctx.work, "CasesC20F.v")):
         jobs.append(("CasesC20F.v", "c20f_mismatches", "CasesC20F.idx",
                      "recorder save with a crash point or a failing file operation, then a restart through New(): what it comes back with = what the model's save with the same crash / fault index leaves under the history name (%s saves)", "c20f_ncases"))
@@ -105,6 +113,9 @@ def run(ctx):
                 corr(ctx, res, "c20u_mismatches", "recorder start-up next to leftover files and on a damaged file: what New() comes back with = the model's start-up, which looks at the history file's own name only (%s directories)" % res.get("c20u_ncases", "?"), "CasesC20U.idx")
                 violating(ctx, res, "c20u_violating", "startup-leftover", "CasesC20U.idx",
                           "property predicate evaluated in Coq on the observed start-up: a start on a good history file comes back with that history whatever lies next to it")
+            if j[1] == "c20h_mismatches":
+                violating(ctx, res, "c20h_violating", "history-changed-by-reader", j[2],
+                          "property predicate evaluated in Coq on the observations: every read-out handed out after a reader ran, the saved file and what the restarted recorder comes back with are the events recorded, in order")
             if j[1] == "c20k_mismatches":
                 violating(ctx, res, "c20k_violating", "churn", j[2],
                           "property predicate evaluated in Coq on the observed streams: every connection was handed exactly the events published while it was connected (between its connect and its disconnect), in order")
